@@ -147,6 +147,7 @@ def statement_coverage():
         "10 FOR G = 1 TO 2 : FOR H = 1 TO 2 : FOR I = 1 TO 2 : FOR J = 1 TO 2 : NEXT J , I : NEXT : NEXT",
         "10 FOR I = 1 TO 2\n20 FOR J = 1 TO 2\n30 NEXT J , I",
         # repeated names in one DIM, DIM of scalars beside arrays
+        "10 DIM A ( &H0 )", "10 DIM A ( 0 )", "10 A = &H0", "10 POKE &HFF9A , &H00", "10 DATA &H0 , &H00",
         "10 DIM A$ , B , A$", "10 DIM A , A", '10 DIM A$ , B$ ( 2 ) : A$ = "X" : B$ ( 1 ) = A$',
     ]
     return progs
